@@ -67,7 +67,7 @@ def kernel_part(out):
     n, s = K.two_groups(p)
     names.append(n)
     src += s
-  kernels.run_kernels(out, 'concertina scheduler', src, names, 900, replay_kernel)
+  kernels.run_kernels(out, 'concertina scheduler', src, names, 2400, replay_kernel)
   plan_invariant(out)
 
 
